@@ -8,14 +8,19 @@ RULE = ("engine A: sequential NextIteration histories for limits 0..50 and call 
         "work kept being requested, and no id handed out without being run while the limit was not reached. Non-trivial: "
         "a concurrent case (stress or pool) or a sequential case that crosses the limit; distinct = distinct case lines.")
 ASSUMPTIONS = ["atomic.Uint64.Add is a single atomic increment (Go memory model); uint64 overflow outside the model",
-               "file-mode stages sharing one counter are exercised by the whole-run ops of C05/C15"]
+               "file-mode stages sharing one counter and one set of ids are exercised by whole runs (run op, mode=file) with iterations that outlive their stage"]
 
 
 def corpus():
     return ["iter.seq 3 5", "iter.seq 0 9", "iter.seq 1 1", "iter.seq 7 7", "iter.seq 7 0",
             "iter.stress 1 16 40 300", "iter.stress 3 16 40 300",
             "pool.ids 3 users 16 10 0 20", "pool.ids 0 users 5 15 0 3",
-            "pool.ids 7 trigger 100 6 3 5", "pool.ids 17 trigger 100 8 5 3"]
+            "pool.ids 7 trigger 100 6 3 5", "pool.ids 17 trigger 100 8 5 3",
+            # config-file stages share one counter; iterations that outlive their stage keep their own id
+            "run prop=C03 mode=file dur=3000 conc=2 file=c:250:4/250ms;c:250:4/250ms;c:200:2/100ms body=200",
+            "run prop=C03 mode=file dur=3000 conc=3 maxit=11 file=u:200:3;c:300:3/100ms;u:2000:2 body=5 expectlimit=1",
+            "run prop=C03 mode=constant rate=5/50ms dur=400 conc=4 body=10 maxit=17 expectlimit=1",
+            "run prop=C03 mode=users conc=5 dur=400 body=3 maxit=40 expectlimit=1"]
 
 
 def generate(rng, tier):
@@ -33,6 +38,12 @@ def generate(rng, tier):
                                                      rng.choice([3, 10]), rng.choice([3, 10])))
         out.append("pool.ids %d trigger %d %d %d %d" % (rng.choice([0, 1, 7, 17, 50]), rng.choice([1, 4, 100]),
                                                         rng.randint(1, 10), rng.randint(1, 9), rng.choice([2, 5])))
+    for _ in range({"quick": 4, "thorough": 60, "search": 12}[tier]):
+        k = rng.randint(2, 4)
+        stages = ";".join(rng.choice(["c:%d:%d/%dms" % (rng.choice([150, 250]), rng.randint(1, 4), rng.choice([50, 100, 250])),
+                                      "u:%d:%d" % (rng.choice([150, 250]), rng.randint(1, 3))]) for _ in range(k))
+        out.append("run prop=C03 mode=file dur=4000 conc=%d file=%s body=%d%s" % (
+            rng.choice([1, 2, 4]), stages, rng.choice([5, 120, 220]), rng.choice(["", "", " maxit=%d" % rng.randint(3, 15)])))
     return out
 
 
@@ -47,8 +58,10 @@ def distribution(recs):
     d = {"iter.seq": 0, "iter.stress": 0, "pool.ids": 0, "limit_reached": 0}
     for r in recs:
         a = r["case"].split()
-        d[a[0]] += 1
-        if a[0] == "iter.seq":
+        d[a[0]] = d.get(a[0], 0) + 1
+        if a[0] == "run":
+            d["limit_reached"] += "maxit=" in r["case"]
+        elif a[0] == "iter.seq":
             d["limit_reached"] += int(a[1]) > 0 and int(a[2]) > int(a[1])
         elif "counter=" in r["impl"]:
             c = int(r["impl"].split("counter=")[1].split()[0])
